@@ -4,6 +4,7 @@ import (
 	"encoding/json"
 	"fmt"
 	"net/url"
+	"slices"
 	"strings"
 	"testing"
 
@@ -96,10 +97,26 @@ func objectValue(m, outer string, foreign bool) []string {
 var argPos = map[string][]int{"redirect_uri": {1}, "response_mode": {3}, "state": {4}, "nonce": {5}, "scope": {6}, "code_challenge": {7, 8}, "prompt": {9}}
 
 func roSigner(name, outer string) (signer, kid string, skip bool) {
-	ownS, ownKid := "A.k2/ES256", "jk2"
-	peerS, peerKid := "B.k/ES256", "bk1"
-	if outer == B {
-		ownS, ownKid, peerS, peerKid = peerS, peerKid, ownS, ownKid
+	ownS, ownKid := keyOf(outer)
+	peerS, peerKid := keyOf(peerOf(outer))
+	// "key-of:<id>" / "key-of:nm:<kind>": the key of that registered client (of the client whose
+	// id is that near-miss of the requesting client's id), under its own kid
+	if id, ok := strings.CutPrefix(name, "key-of:"); ok {
+		if k, ok := strings.CutPrefix(id, "nm:"); ok {
+			id = nearMiss(outer, k)
+		}
+		s, kid := keyOf(id)
+		return s, kid, false
+	}
+	// "<outer.k|peer.k>|nm:<kind>": the key under a near-miss of the kid the OUTER client's key is
+	// registered under
+	if p := strings.SplitN(name, "|nm:", 2); len(p) == 2 {
+		switch p[0] {
+		case "outer.k":
+			return ownS, nearMiss(ownKid, p[1]), false
+		case "peer.k":
+			return peerS, nearMiss(ownKid, p[1]), false
+		}
 	}
 	switch name {
 	case "outer.k":
@@ -151,6 +168,19 @@ func objectRT(outerRT, rel string) (val, class string, skip bool) {
 	r, ok := tab[outerRT]
 	if !ok {
 		panic("c14: outer response type " + outerRT)
+	}
+	if k, ok := strings.CutPrefix(rel, "nm:"); ok {
+		// a near-miss of the outer response_type. response_type is a space-separated list: a
+		// spelling with the same VALUES (extra blanks, a value twice) is judged like "reordered"
+		// (Either); every other string names other values and disagrees.
+		val = nearMiss(outerRT, k)
+		got, want := strings.Fields(val), strings.Fields(outerRT)
+		slices.Sort(got)
+		slices.Sort(want)
+		if slices.Equal(slices.Compact(got), slices.Compact(want)) {
+			return val, "reordered", false
+		}
+		return val, "disagrees", false
 	}
 	switch rel {
 	case "same", "equal":
@@ -235,8 +265,16 @@ func reqobjCase(t *testing.T, r *rig.Rig, g func(string) string) engine.Result {
 
 // reqobjCaseW additionally returns the expectation of the reference predicate.
 func reqobjCaseW(t *testing.T, r *rig.Rig, g func(string) string) (_ engine.Result, expect want) {
+	return reqobjCaseX(t, r, I, g)
+}
+
+// reqobjCaseX: r is a provider whose issuer is issuer.
+func reqobjCaseX(t *testing.T, r *rig.Rig, issuer string, g func(string) string) (_ engine.Result, expect want) {
 	outer, router, plainScope := g("outer"), g("router"), g("plainScope")
 	resolve := func(x string) string {
+		if k, ok := strings.CutPrefix(x, "nm:"); ok {
+			return nearMiss(outer, k) // a near-miss of the requesting client's id
+		}
 		switch x {
 		case "outer":
 			return outer
@@ -271,7 +309,7 @@ func reqobjCaseW(t *testing.T, r *rig.Rig, g func(string) string) (_ engine.Resu
 	if ocid != "" {
 		obj["client_id"] = ocid
 	}
-	if v, ok, _ := audValue(g("oaud"), I); ok {
+	if v, ok, _ := audValue(g("oaud"), issuer); ok {
 		obj["aud"] = v
 	}
 	outerRT := g("outerRT")
@@ -300,7 +338,7 @@ func reqobjCaseW(t *testing.T, r *rig.Rig, g func(string) string) (_ engine.Resu
 		}
 	}
 	anyKey, named := signedFor(tok, outer)
-	_, _, audOK := audValue(g("oaud"), I)
+	_, _, audOK := audValue(g("oaud"), issuer)
 	switch {
 	case g("feature") == "off":
 		hard("request-objects-not-supported")
@@ -358,7 +396,7 @@ func reqobjCaseW(t *testing.T, r *rig.Rig, g func(string) string) (_ engine.Resu
 	}
 	site := "/" + router
 	desc := func() string {
-		return fmt.Sprintf("/authorize on %s router (RequestObjectSupported=%s) outer client_id=%s plain scope=%q; object header=%v payload=%s → status %d location %q journal %v",
+		return fmt.Sprintf("/authorize on %s router of issuer "+issuer+" (RequestObjectSupported=%s) outer client_id=%s plain scope=%q; object header=%v payload=%s → status %d location %q journal %v",
 			router, g("feature"), outer, plainScope, headerOf(tok), payload, resp.Status, resp.Header.Get("Location"), r.Core.JournalCopy())
 	}
 	calls := r.Core.Calls("CreateAuthRequest")
